@@ -72,9 +72,12 @@ def parse_model(reply):
     for _ in range(num()):
         bname, app = s(), s(); why = t[i]; i += 1
         nob.append((bname, app, why))
+    wf = None
+    if t[i] == "W":
+        wf = t[i + 1] == "1"; i += 2
     assert t[i] == "F"; i += 1
     f = b"" if t[i] == "." else bytes.fromhex(t[i])
-    return dict(kind="ok", builds=builds, nobuilds=nob, file=f)
+    return dict(kind="ok", builds=builds, nobuilds=nob, file=f, wf=wf)
 
 RE_NOTALLOWED = re.compile(r"^app (?:(?:\S+:)?(\S+)): (?:parent \S+ of )?builder (\S+) blocklisted$")
 RE_NOTANC = re.compile(r"^app (\S+): builder (\S+) is not an ancestor of")
